@@ -173,7 +173,7 @@ type cev struct {
 	p    H
 }
 
-var evKinds = []string{"deliver", "dup", "timeout", "stale", "reset", "tx", "newtx", "sync", "perm", "restart", "byz", "inj", "skip", "hold", "tick", "txpool", "sweep", "twin", "endcheck", "epochs", "detcheck"}
+var evKinds = []string{"deliver", "dup", "timeout", "stale", "reset", "tx", "newtx", "sync", "perm", "restart", "byz", "inj", "skip", "hold", "tick", "txpool", "sweep", "twin", "endcheck", "epochs", "detcheck", "watch"}
 
 func compact(e Event) cev {
 	return cev{uint8(slices.Index(evKinds, e.K)), uint8(e.N), int32(e.A), int32(e.B), e.P}
